@@ -26,6 +26,7 @@ func runC10(r *engine.Run) {
 	r.Rule("AGREE-endian", "see C09: one byte order for all fixed-width fields (prover, verifier and hash agree on the weights they read)")
 	r.Rule("AGREE-persist", "every field a Serialize method stores into a PersistNode* struct is read by DeserializeNode and vice versa")
 	r.Rule("AGREE-decode", "DeserializeNode accumulates a branch's weight from the child weights it reads and stores every accepted child entry into a child slot; shortNode.Serialize fills the persisted value reference from the value's Hash() and Weight()")
+	r.Rule("AGREE-childset", "the branch hash covers every child slot, so routingNode.Serialize writes a child whenever it is present: the write into the persisted child list is conditional only on the child's nil test and on type assertions that select the layout, never on another property of the child")
 	r.Rule("FRESH-copy", "for every node type of the weighted trie whose fields are written after construction (insert updates value nodes in place; Serialize/CalcHash/commit write hash and dirty), no return of Copy or CopyRoot is the receiver itself and no child slot of the copy is filled with the receiver's own child object: a CopyRoot snapshot shares no mutable node with the trie it was taken from (proofs produced from a snapshot keep verifying against the snapshot's root while the original changes)")
 	r.NotDec = append(r.NotDec, "absence of other forgeries (a statement over all byte strings)", "that honest proofs verify for every content (value-level)")
 	f := r.Fn("ORDER-recompute", pkgWMPT, "", "verifyProof")
@@ -43,6 +44,7 @@ func runC10(r *engine.Run) {
 	agreePersist(r, "AGREE-persist")
 	agreeDecode(r, "AGREE-decode")
 	freshCopy(r, "FRESH-copy")
+	agreeChildSet(r, "AGREE-childset")
 }
 
 func orderRecompute(r *engine.Run, f *ssa.Function) {
